@@ -100,79 +100,153 @@ def oracle(chk, world, r, case):
                     chk.failure("parser %d received %s, first required dependency holds %s" % (cid, invoked.get(cid), cv(req[0])), case)
 
 
-def derive_stream(chk, n):
-    """
-    ComponentType.__init__ glue: class-level requires / optional of a component type, positional arguments,
-    the deprecated requires= keyword, optional= as a single component or a list — the delegate's requires,
-    at_least_one and deps (argument order) vs IV.Dr.derive.
-    """
-    rng = chk.rng
+NB = 10          # size of the pool of keys a generated declaration may name
+
+
+def _derive_pool():
+    """real components to depend on, and keys that are no components: plain strings (like "metadata.json") and a
+    TUPLE (hashable: an ordinary key wherever it is written — only a `list` makes an at-least-one group)"""
     base = []
-    for i in range(8):                       # a pool of real components to depend on
+    for i in range(NB):
         def f():
             return None
         f.__name__ = "dv%d" % i
-        # dependencies are hashable KEYS, not only components: two of the eight are plain strings (like "metadata.json")
-        base.append(plugins.component()(f) if i < 6 else "dv%d.key" % i)
+        base.append(plugins.component()(f) if i < 6 else "dv%d.key" % i if i < 8 else "metadata.json" if i == 8 else ("dv9", "tuple-key"))
+    return base
+
+
+DERIVE_KINDS = {"plain": ("plain", W.vplain), "component": ("plugin", plugins.component), "combiner": ("plugin", plugins.combiner),
+                "condition": ("plugin", plugins.condition), "incident": ("plugin", plugins.incident), "fact": ("plugin", plugins.fact),
+                "remoteresource": ("plugin", plugins.remoteresource), "rule": ("rule", plugins.rule),
+                "datasource": ("datasource", plugins.datasource), "parser": ("parser1", plugins.parser),
+                "metadata": ("parser1", plugins.metadata)}
+
+
+def _enc_items(its):
+    def mem(m):
+        return str(m) if isinstance(m, int) else "n" + ".".join(map(str, m[1]))
+    return ";".join(("o%d" % x[1]) if x[0] == "o" else ("g" + ",".join(mem(m) for m in x[1])) for x in its) or "-"
+
+
+def _has_nested(its):
+    return any(x[0] == "g" and any(not isinstance(m, int) for m in x[1]) for x in its)
+
+
+def derive_line(case):
+    kname = DERIVE_KINDS[case["type"]][0]
+    kw_opt = case["kw_optional"]
+    return "derive2\t%s\t%s\t%s\t%s\t%s\t%s\t%s\t%s" % (
+        kname, _enc_items(case["cls_requires"]), ",".join(map(str, case["cls_optional"])) or "-", _enc_items(case["positional"]),
+        _enc_items(case["kw_requires"] or []), "1" if case["kw_requires_tuple"] else "0",
+        "-" if kw_opt is None else ("s%d" % kw_opt[1]) if kw_opt[0] == "s" else "m" + ",".join(map(str, kw_opt[1])),
+        "1" if (kw_opt is not None and kw_opt[0] == "x") else "0")
+
+
+def derive_one(base, case):
+    """the decorator call of `case` on the real component type; its delegate's requires / at_least_one / deps"""
     ids = dict((c, i) for i, c in enumerate(base))
+
+    def real(its):
+        return [base[x[1]] if x[0] == "o" else [base[m] if isinstance(m, int) else [base[c] for c in m[1]] for m in x[1]] for x in its]
+    ktype = DERIVE_KINDS[case["type"]][1]
+    body = {"optional": [base[c] for c in case["cls_optional"]]}
+    if not case.get("inherit_requires"):
+        body["requires"] = real(case["cls_requires"])
+    T = type("T_%s" % case["type"], (ktype,), body)
+    kwargs = {}
+    if case["kw_requires"] is not None:
+        kwargs["requires"] = tuple(real(case["kw_requires"])) if case["kw_requires_tuple"] else real(case["kw_requires"])
+    kw_opt = case["kw_optional"]
+    if kw_opt is not None:
+        kwargs["optional"] = (base[kw_opt[1]] if kw_opt[0] == "s" else [base[c] for c in kw_opt[1]] if kw_opt[0] == "m"
+                              else [base[c] for c in kw_opt[1]] + [[base[c] for c in kw_opt[2]]])
+    try:
+        d = T(*real(case["positional"]), **kwargs)
+        parts = (list(d.requires), [list(g) for g in d.at_least_one], list(d.deps))
+        if not all(c in ids for c in parts[0] + parts[2]) or not all(c in ids for g in parts[1] for c in g):
+            return "foreign-keys:%r" % (parts,)
+        return "req=%s|alo=%s|deps=%s" % (",".join(str(ids[c]) for c in parts[0]),
+                                          "&".join((";".join(str(ids[c]) for c in g) or "_") for g in parts[1]),
+                                          ",".join(str(ids[c]) for c in parts[2]))
+    except Exception as ex:
+        return "raised:%s" % type(ex).__name__
+
+
+def derive_oracle(rep, case, got):
+    """declaration order = class-level requirements, then positional (else requires=), then optional ones; a decorator
+    call raises only for what cannot be a declaration (a list inside a list, requires= as a tuple)"""
+    parser = DERIVE_KINDS[case["type"]][0] == "parser1"
+    pos, kw_req, kw_opt = case["positional"], case["kw_requires"] or [], case["kw_optional"]
+    eff = pos if pos else ([] if parser else kw_req)
+    malformed = _has_nested(case["cls_requires"] + eff) or (not parser and not pos and case["kw_requires"] is not None and case["kw_requires_tuple"]) \
+        or (not parser and kw_opt is not None and kw_opt[0] == "x")
+    if got.startswith("raised") or not got.startswith("req="):
+        if not malformed:
+            rep.failure("decorator arguments %s: the decorator call gave %s on a well-formed declaration" % (case, got), case)
+        return
+    if malformed:
+        return            # (accepting it is no statement about binding order; the correspondence notes the difference)
+    want = [c for x in case["cls_requires"] + eff for c in ([x[1]] if x[0] == "o" else x[1])] + list(case["cls_optional"])
+    if not parser and kw_opt is not None:
+        want += [kw_opt[1]] if kw_opt[0] == "s" else list(kw_opt[1])
+    if got.split("deps=")[1] != ",".join(map(str, want)):
+        rep.failure("decorator arguments %s bind in order %s, declaration order is %s" % (case, got.split("deps=")[1], want), case)
+    wreq = [x[1] for x in case["cls_requires"] + eff if x[0] == "o"]
+    if got.split("|")[0] != "req=" + ",".join(map(str, wreq)):
+        rep.failure("decorator arguments %s: required dependencies %s, written are %s" % (case, got.split("|")[0], wreq), case)
+
+
+def derive_stream(chk, n):
+    """
+    ComponentType.__init__ glue for EVERY component type (bare ComponentType, component, combiner, condition, incident,
+    fact, remoteresource, rule, datasource, parser, metadata): class-level requires / optional of a component type
+    (metadata: the inherited one), positional arguments, the deprecated requires= keyword (list or tuple), optional= as
+    a single key or a list (or, malformed, a list holding a list), groups holding a list — the delegate's requires,
+    at_least_one and deps (argument order) vs IV.Dr.derive2.
+    """
+    rng = chk.rng
+    base = _derive_pool()
 
     def items(k):
         out = []
         for _ in range(k):
             if rng.random() < 0.3:
-                out.append(("g", [rng.randrange(8) for _ in range(rng.randint(1, 3))]))
+                ms = [rng.randrange(NB) for _ in range(rng.choice([0, 1, 1, 2, 2, 3]))]
+                if ms and rng.random() < 0.12:
+                    ms[rng.randrange(len(ms))] = ["n", [rng.randrange(NB) for _ in range(rng.randint(0, 2))]]
+                out.append(("g", ms))
             else:
-                out.append(("o", rng.randrange(8)))
+                out.append(("o", rng.randrange(NB)))
         return out
-
-    def real(its):
-        return [base[x[1]] if x[0] == "o" else [base[c] for c in x[1]] for x in its]
-
-    def enc_items(its):
-        return ";".join(("o%d" % x[1]) if x[0] == "o" else ("g" + ",".join(map(str, x[1]))) for x in its) or "-"
-    kinds = [("plain", W.vplain), ("plugin", plugins.component), ("plugin", plugins.combiner), ("rule", plugins.rule),
-             ("datasource", plugins.datasource), ("parser1", plugins.parser)]
     lines, impl, cases = [], [], []
+    tnames = sorted(DERIVE_KINDS)
     for i in range(n):
-        kname, ktype = rng.choice(kinds)
-        cls_req, cls_opt = items(rng.choice([0, 0, 1, 2])), [rng.randrange(8) for _ in range(rng.choice([0, 0, 1, 2]))]
+        tname = rng.choice(tnames)
+        parser = DERIVE_KINDS[tname][0] == "parser1"
+        cls_req, cls_opt = items(rng.choice([0, 0, 1, 2])), [rng.randrange(NB) for _ in range(rng.choice([0, 0, 1, 2]))]
+        inherit = tname == "metadata" and rng.random() < 0.6
+        if inherit:
+            cls_req = [("o", 8)]                                  # metadata.requires = ["metadata.json"], not overridden
         pos, kw_req = items(rng.choice([0, 1, 2, 3])), items(rng.choice([0, 0, 1, 2]))
-        if kname == "parser1" and not (cls_req or pos):
-            pos = [("o", rng.randrange(8))]
+        if parser and not (cls_req or pos):
+            pos = [("o", rng.randrange(NB))]
         r = rng.random()
-        kw_opt = None if r < 0.4 else ("s", rng.randrange(8)) if r < 0.6 else ("m", [rng.randrange(8) for _ in range(rng.randint(0, 3))])
-        T = type("T%d" % i, (ktype,), {"requires": real(cls_req), "optional": [base[c] for c in cls_opt]})
-        kwargs = {}
-        if kw_req or rng.random() < 0.2:
-            kwargs["requires"] = real(kw_req)
-        if kw_opt is not None:
-            kwargs["optional"] = base[kw_opt[1]] if kw_opt[0] == "s" else [base[c] for c in kw_opt[1]]
-        if "requires" not in kwargs:
-            kw_req = []
-        try:
-            d = T(*real(pos), **kwargs)
-            got = "req=%s|alo=%s|deps=%s" % (",".join(str(ids[c]) for c in d.requires),
-                                             "&".join(";".join(str(ids[c]) for c in g) for g in d.at_least_one),
-                                             ",".join(str(ids[c]) for c in d.deps))
-        except Exception as ex:
-            got = "raised:%s" % type(ex).__name__
+        kw_opt = None if r < 0.4 else ("s", rng.randrange(NB)) if r < 0.6 else \
+            ("m", [rng.randrange(NB) for _ in range(rng.randint(0, 3))]) if r < 0.93 else \
+            ("x", [rng.randrange(NB) for _ in range(rng.randint(0, 2))], [rng.randrange(NB) for _ in range(rng.randint(0, 2))])
+        has_kw = bool(kw_req) or rng.random() < 0.2
+        case = {"op": "derive", "type": tname, "kind": DERIVE_KINDS[tname][0], "cls_requires": cls_req, "cls_optional": cls_opt,
+                "inherit_requires": inherit, "positional": pos, "kw_requires": kw_req if has_kw else None,
+                "kw_requires_tuple": bool(has_kw and rng.random() < 0.15), "kw_optional": kw_opt}
+        got = derive_one(base, case)
         impl.append(got)
-        lines.append("derive\t%s\t%s\t%s\t%s\t%s\t%s" % (
-            kname, enc_items(cls_req), ",".join(map(str, cls_opt)) or "-", enc_items(pos), enc_items(kw_req),
-            "-" if kw_opt is None else ("s%d" % kw_opt[1]) if kw_opt[0] == "s" else "m" + ",".join(map(str, kw_opt[1]))))
-        case = {"op": "derive", "kind": kname, "cls_requires": cls_req, "cls_optional": cls_opt, "positional": pos,
-                "kw_requires": kw_req if "requires" in kwargs else None, "kw_optional": kw_opt}
+        lines.append(derive_line(case))
         cases.append(case)
         chk.case(("derive", lines[-1]), bool(pos or kw_req or cls_req))
-        chk.count("derive:" + kname)
-        # oracle: declaration order = class-level requirements, then positional (else requires=), then optional ones
-        if not got.startswith("raised"):
-            eff = pos if pos else (kw_req if kname != "parser1" else [])
-            want = [c for x in cls_req + eff for c in ([x[1]] if x[0] == "o" else x[1])] + cls_opt
-            if kname != "parser1" and kw_opt is not None:
-                want += [kw_opt[1]] if kw_opt[0] == "s" else list(kw_opt[1])
-            if got.split("deps=")[1] != ",".join(map(str, want)):
-                chk.failure("decorator arguments %s bind in order %s, declaration order is %s" % (case, got.split("deps=")[1], want), case)
+        chk.count("derive:" + tname)
+        if got.startswith("raised"):
+            chk.count("derive:" + got)
+        derive_oracle(chk, case, got)
     chk.compare("decorator-arguments-vs-derive", cases, impl, run_driver("Dr", lines))
 
 
@@ -275,14 +349,34 @@ def run(chk):
         chk.tie_broken("protocol", "driver rejected %d world lines" % len(bad), bad[:3])
     chk.compare("engine-vs-model", cases, impl, model)
     chk.sample({"case": cases[0], "impl": impl[0]})
-    derive_stream(chk, 1500 if quick else 20000)
+    derive_stream(chk, 4000 if quick else 40000)
 
 
 def replay(data):
     if data["case"].get("op") == "derive":
-        print("decorator-argument case:", data["case"]); print(data.get("desc"))
-        print("re-run ./check C02 with VERIF_SEED=%s to reproduce" % data.get("seed"))
-        return 1
+        case = data["case"]
+        for k in ("cls_requires", "positional", "kw_requires"):
+            if case.get(k) is not None:
+                case[k] = [tuple(x) for x in case[k]]
+        if case.get("kw_optional") is not None:
+            case["kw_optional"] = tuple(case["kw_optional"])
+        got = derive_one(_derive_pool(), case)
+        model = run_driver("Dr", [derive_line(case)])[0]
+        print("decorator-argument case:", case)
+        print("implementation:", got)
+        print("model:         ", model)
+
+        class Rep(object):
+            bad = 0
+
+            def failure(self, desc, c, finding=None):
+                self.bad += 1
+                print("oracle:", desc)
+        rep = Rep()
+        derive_oracle(rep, case, got)
+        bad = rep.bad or got != model
+        print("property violated on this input" if bad else "property holds on this input")
+        return 1 if bad else 0
     if data["case"].get("mode") == "second-evaluation":
         case = data["case"]
         world, seeds, graph = W.rebuild(case)
